@@ -625,10 +625,14 @@ class Ghost:
 
     def vc_list_tail(self, args, kwargs, node):
         """vc.list_tail(l): what was appended to a vc.sym_list since its creation"""
-        l = args[0]
+        from .values import deref
+
+        l = deref(args[0])
         if isinstance(l, SymListV):
             return ListV(l.items)
-        raise OutsideSubset("vc.list_tail of a value that is not a vc.sym_list")
+        if isinstance(l, ListV):
+            return ListV(l.items)  # an ordinary list has no symbolic prefix
+        raise OutsideSubset("vc.list_tail of a value that is not a list")
 
     def vc_text(self, args, kwargs, node):
         """vc.text(name, minlen=0, maxlen=None, exclude=None): arbitrary ASCII str; `exclude`
